@@ -62,6 +62,15 @@ def _s2cmi(m, nidx):
     return nv + 1
 
 
+def _array_index_aware_key(item):
+    """Sort key for flat document entries that orders array indexes
+    numerically: 'a[2].b' comes before 'a[10].b'."""
+
+    # re.split() with one group returns the indexes at the odd positions.
+    return [(1, int(s), '') if i % 2 else (0, 0, s)
+                       for i, s in enumerate(RE_HTTP_ARRAY_INDEX.split(item[0]))]
+
+
 def _fill(inst_class, frequencies):
     """This function initializes the frequencies dict with null values. If this
     is not done, it won't be possible to catch missing elements when validating
@@ -180,7 +189,7 @@ class SimpleDictDocument(DictDocument):
         logger.debug("Simple type info key: %r", simple_type_info.keys())
 
         idxmap = defaultdict(dict)
-        for orig_k, v in sorted(doc.items(), key=lambda _k: _k[0]):
+        for orig_k, v in sorted(doc.items(), key=_array_index_aware_key):
             k = RE_HTTP_ARRAY_INDEX.sub("", orig_k)
 
             member = simple_type_info.get(k, None)
